@@ -126,7 +126,11 @@ def run(tier: str) -> int:
     for st in read_dump(g2.dump):
         h = [list(x) for x in st["hist"]]
         if len(h) == 5 and useful(h):
-            hists.append([tuple(op) for op in h])
+            if any(op[0] == "ForeignVersion" for op in h):  # three ways of being another version
+                for flavour in range(3):
+                    hists.append([tuple(op) + ((flavour,) if op[0] == "ForeignVersion" else ()) for op in h])
+            else:
+                hists.append([tuple(op) for op in h])
     n2 = len(hists)
     # path identity: p1 and p3 have the same file name (a.py, pkg/sub/a.py); moving a file between them after a scan
     # must not let the scan reuse the entry of the other path (Write, Scan, Taint, Rename, Scan)
